@@ -136,17 +136,23 @@ PROPS["C25"] = {
     "level": "proof",
     "anchors": [("verify_no_overlap_contiguous", "src/util/metadata/side_metadata/sanity.rs"),
                 ("verify_global_specs", "src/util/metadata/side_metadata/sanity.rs"),
+                ("verify_global_specs_total_size", "src/util/metadata/side_metadata/sanity.rs"),
                 ("verify_local_specs_size", "src/util/metadata/side_metadata/sanity.rs")],
     "kani": {"prefix": "c25_", "files": ["c25_sanity.rs"], "timeout_quick": 900, "timeout_thorough": 2400},
-    "functions": ["sanity::verify_no_overlap_contiguous", "sanity::verify_global_specs", "sanity::verify_global_specs_total_size",
-                  "sanity::verify_local_specs_size", "helpers::metadata_address_range_size"],
+    "functions": ["sanity::verify_no_overlap_contiguous", "sanity::verify_global_specs_total_size", "sanity::verify_local_specs_size",
+                  "sanity::verify_global_specs (checked modularly against the contracts of its two callees)", "helpers::metadata_address_range_size"],
     "explanation": "verify_no_overlap_contiguous is run on two fully symbolic well-formed specs and a symbolic base: Err <=> the "
-                   "address ranges [base+offset_i, base+offset_i+range_size_i) intersect (loop-free, complete). verify_global_specs is "
-                   "run on every slice of <= 3 symbolic global specs: Err <=> total size over the bound or two different specs overlap "
-                   "(loops bounded by the slice length; the pair predicate is the quantified part and is complete).",
-    "bounds": ["verify_global_specs: slices of length <= 3 (pairwise predicate complete)", "verify_local_specs_size: slices of length <= 2"],
-    "assumptions": ["well-formed specs: log_num_of_bits <= 6, 0 <= log data/meta ratio <= 47, offset <= 2^50; base <= 2^62 (no address overflow)"],
-    "trusted_base": ["kani::stub of global_side_metadata_base_address (symbolic base)", "kani::stub of alloc::fmt::format (error text irrelevant)"],
+                   "address ranges [base+offset_i, base+offset_i+range_size_i) intersect (loop-free, complete). "
+                   "verify_global_specs_total_size: Err <=> summed range sizes exceed the bound, for slices of <= 3 specs. "
+                   "verify_global_specs is then verified modularly: its two callees are replaced by stubs answering from arbitrary "
+                   "symbolic predicate tables (their contracts, proved by the two harnesses above), and the composition is shown to return "
+                   "Err <=> total-too-big or some ordered pair of different specs is reported overlapping, for every slice of <= 3 specs.",
+    "bounds": ["verify_global_specs / verify_global_specs_total_size: slices of length <= 3 (the pairwise predicate is complete)",
+               "verify_local_specs_size: slices of length <= 2"],
+    "assumptions": ["well-formed specs: log_num_of_bits <= 6, 0 <= log data/meta ratio <= 47, offset <= 2^50; base <= 2^62 (no address overflow)",
+                    "io::Result is not kani::Arbitrary, so the modular step uses hand-written contract stubs instead of stub_verified"],
+    "trusted_base": ["kani::stub of global_side_metadata_base_address (symbolic base)", "kani::stub of alloc::fmt::format (error text irrelevant)",
+                     "contract stubs total_contract / pair_contract in c25_sanity.rs (each backed by a discharged harness)"],
     "not_covered": ["SideMetadataSanity::verify_metadata_context / verify_local_specs / get_all_specs (HashMap state, global RwLock): the "
                     "per-plan bookkeeping around the verified pair/slice predicates"],
 }
